@@ -521,27 +521,22 @@ class Check(PropertyCheck):
         return lines
 
     @staticmethod
-    def _norm_end(line, must_settle):
+    def _norm_end(line, fired_rh):
         """final line: `live` is not compared once the stream is a pipe (the child layer owns the flow then);
-        `settled` is only claimed for request/response flows that fired requestheaders"""
+        `settled` is only claimed for request/response flows that fired requestheaders (no pipe, no websocket)"""
         kv = dict(x.split("=") for x in line.split())
         if kv["pt"] == "1": kv["live"] = "*"
-        if not must_settle: kv["settled"] = "*"
+        if not (fired_rh and kv["pt"] == "0" and kv["ws"] == "0"): kv["settled"] = "*"
         return " ".join(f"{k}={v}" for k, v in kv.items())
-
-    def _must_settle(self, st):
-        ispt = any(pt for _, _, pt in st["log"]) or st["pt"]
-        fired = any("H:requestheaders" in o for _, o, _ in st["log"])
-        return fired and not ispt and not st["connect"] and not st["websocket"]
 
     def model_obs(self, case, replies):
         out, cur = [], None
         for r in replies:
             if r == "ok": cur = []; out.append(cur)
             else: cur.append(r)
-        obs = self._last_obs[1] if getattr(self, "_last_obs", None) and self._last_obs[0] is case else self.impl(case)
-        for cur, st in zip(out, obs["streams"]):
-            if cur and cur[-1].startswith("live="): cur[-1] = self._norm_end(cur[-1], self._must_settle(st))
+        for cur in out:
+            if cur and cur[-1].startswith("live="):
+                cur[-1] = self._norm_end(cur[-1], any("H:requestheaders" in r.split() for r in cur[:-1]))
         return out
 
     def impl_view(self, case, obs):
@@ -556,7 +551,7 @@ class Check(PropertyCheck):
             # after everything is closed and every hook completed: the model must agree that the stream is settled,
             # that no input fell outside its event grammar, and that nothing is pending
             end = (f"live={int(st['live'])} cs={st['cs']} ss={st['ss']} pt={int(ispt)} settled=1 bad=0 paused=0 "
-                   f"streamed={int(st['streamed_up'])}")
-            cur.append(self._norm_end(end, self._must_settle(st)))
+                   f"streamed={int(st['streamed_up'])} ws={int(st['websocket'])}")
+            cur.append(self._norm_end(end, any("H:requestheaders" in c.split() for c in cur)))
             out.append(cur)
         return out
